@@ -5,8 +5,9 @@ Line-protocol driver for the C10 model (`lake build c10drv`).
 
 Requests (felts as hex without prefix, bit strings over `0`/`1`, `-` = empty):
 
-* `vL <root> <keybits> <node>*` — `trie.VerifyProof` on a proof node set
-* `v2 <trustCache 0|1><earlyValue 0|1> <root> <keybits> <node>*` — `trie2.VerifyProof`
+* `vL <cfg> <root> <keybits> <node>*` — `trie.VerifyProof` on a proof node set
+* `v2 <cfg> <root> <keybits> <node>*` — `trie2.VerifyProof`;
+  `<cfg>` = three digits `<trustCache><earlyValue><zeroRoot>` (`Cfg`), `001` = the strict verifier
 
 `<node>` = `B:<sethash>:<child>:<child>:<cache>:<h2>` or `E:<sethash>:<pathbits>:<child>:<cache>:<h2>`
 where `<sethash>` is the key under which the node sits in the set, `<child>` = `h<felt>` (hash
@@ -15,7 +16,12 @@ real two-argument hash of the node's content evaluated by the harness (`H(left, 
 binary node, `H(child, pathFelt)` for an edge node) — the model never computes Pedersen/Poseidon,
 it looks the value up in the table built from these facts.
 
-Answers: `ok <felt>` | `err:notfound` | `err:mismatch` | `err:keylen` | `err:earlyvalue` |
+* `pv <legacy 0|1> <cached 0|1> <height> <keybits> <keybits=value>* | <a:b:h>*` — build the trie of
+  the key/value set, answer `root <felt> get <felt> <node>*` with the nodes `Trie.prove` returns in
+  order (`<node>` as above without the `<h2>` field); `a:b:h` are the real hash evaluations
+  `H(a,b) = h` the harness computed with its reference root recursion.
+
+Answers of `vL`/`v2`: `ok <felt>` | `err:notfound` | `err:mismatch` | `err:keylen` | `err:earlyvalue` |
 `err:fuel`; malformed request: `bad-op`.
 -/
 open Juno.Proto Juno.C10
@@ -73,21 +79,79 @@ def showRes : Res Nat → String
 
 def parseCfg (s : String) : Option Cfg :=
   match s.toList with
-  | [a, b] =>
-    if (a == '0' || a == '1') && (b == '0' || b == '1') then some ⟨a == '1', b == '1'⟩ else none
+  | [a, b, c] =>
+    if (a == '0' || a == '1') && (b == '0' || b == '1') && (c == '0' || c == '1') then
+      some ⟨a == '1', b == '1', c == '1'⟩
+    else none
   | _ => none
+
+def parseKV (tok : String) : Option (Path × Nat) :=
+  match tok.splitOn "=" with
+  | [k, v] => do
+    let k ← parseBits k
+    let v ← hexToNat? v
+    pure (k, v)
+  | _ => none
+
+def parseFact (tok : String) : Option ((Nat × Nat) × Nat) :=
+  match tok.splitOn ":" with
+  | [a, b, h] => do
+    let a ← hexToNat? a
+    let b ← hexToNat? b
+    let h ← hexToNat? h
+    pure ((a, b), h)
+  | _ => none
+
+def parseAll {α : Type} (f : String → Option α) (toks : List String) : Option (List α) :=
+  toks.foldr (fun t acc => do
+    let xs ← acc
+    let x ← f t
+    pure (x :: xs)) (some [])
+
+def showBits (p : Path) : String :=
+  if p.isEmpty then "-" else String.ofList (p.map (fun b => if b then '1' else '0'))
+
+def showChild (c : Child Nat) : String :=
+  match c.tag with
+  | .nil => "n"
+  | .hash => "h" ++ natToHex c.h
+  | .value => "v" ++ natToHex c.h
+
+def showCache : Option Nat → String
+  | none => "-"
+  | some h => natToHex h
+
+def showNode (e : Nat × PNode Nat) : String :=
+  match e.2 with
+  | .bin l r c => "B:" ++ natToHex e.1 ++ ":" ++ showChild l ++ ":" ++ showChild r ++ ":" ++ showCache c
+  | .edge p ch c => "E:" ++ natToHex e.1 ++ ":" ++ showBits p ++ ":" ++ showChild ch ++ ":" ++ showCache c
+
+def splitAtBar (toks : List String) : List String × List String :=
+  (toks.takeWhile (· != "|"), (toks.dropWhile (· != "|")).drop 1)
 
 def step (s : Unit) (line : String) : Unit × String :=
   match words line with
-  | "vL" :: root :: key :: nodes =>
-    match hexToNat? root, parseBits key, parseNodes nodes with
-    | some root, some key, some (ps, tbl) => (s, showRes (verifyL (tableAlg tbl) root key ps))
-    | _, _, _ => (s, "bad-op")
+  | "vL" :: cfg :: root :: key :: nodes =>
+    match parseCfg cfg, hexToNat? root, parseBits key, parseNodes nodes with
+    | some cfg, some root, some key, some (ps, tbl) =>
+      (s, showRes (verifyL (tableAlg tbl) cfg root key ps))
+    | _, _, _, _ => (s, "bad-op")
   | "v2" :: cfg :: root :: key :: nodes =>
     match parseCfg cfg, hexToNat? root, parseBits key, parseNodes nodes with
     | some cfg, some root, some key, some (ps, tbl) =>
       (s, showRes (verify2 (tableAlg tbl) cfg root key ps))
     | _, _, _, _ => (s, "bad-op")
+  | "pv" :: legacy :: cached :: height :: key :: rest =>
+    let (kvToks, factToks) := splitAtBar rest
+    match parseCfg (legacy ++ cached ++ "0"), height.toNat?, parseBits key, parseAll parseKV kvToks,
+        parseAll parseFact factToks with
+    | some f, some h, some key, some kvs, some tbl =>
+      let A := tableAlg tbl
+      let t : Trie Nat := build h kvs
+      let ps := t.prove A f.trustCache f.earlyValue key
+      (s, "root " ++ natToHex (t.hash A) ++ " get " ++ natToHex (t.get A key) ++
+        String.join (ps.map (fun e => " " ++ showNode e)))
+    | _, _, _, _, _ => (s, "bad-op")
   | _ => (s, "bad-op")
 
 def main : IO Unit := loop step ()
